@@ -28,6 +28,7 @@ type c17Case struct {
 	View    string   `json:"view"` // disk | mem | filtered
 	Include []string `json:"include"`
 	Exclude []string `json:"exclude"`
+	Hide    []string `json:"hide"` // paths dropped by a second filter layer (Map), after the base view stat'ed them
 	Long    int      `json:"long"` // add an entry with a path of this many bytes (0 = none)
 }
 
@@ -44,6 +45,18 @@ func genC17(t *rapid.T) *c17Case {
 	if c.View == "filtered" {
 		c.Include = h.GenPatterns(t, c.Tree, "inc", 2)
 		c.Exclude = h.GenPatterns(t, c.Tree, "exc", 2)
+		// a second layer that hides entries the first one already stat'ed: with hard links the
+		// promoted member must become a complete regular file
+		for _, n := range c.Tree.Nodes {
+			if n.Kind != h.KDir && rapid.IntRange(0, 3).Draw(t, "hide"+n.Path) == 0 {
+				c.Hide = append(c.Hide, n.Path)
+			}
+		}
+		for _, n := range c.Tree.Nodes {
+			if n.LinkTo != "" && rapid.Bool().Draw(t, "hidefirst"+n.Path) {
+				c.Hide = append(c.Hide, n.LinkTo)
+			}
+		}
 	}
 	if rapid.IntRange(0, 4).Draw(t, "long") == 0 {
 		c.Long = rapid.SampledFrom([]int{101, 156, 256, 300}).Draw(t, "longn")
@@ -138,6 +151,21 @@ func c17Check(env *h.Env, c *c17Case) error {
 			if err != nil {
 				env.Class("invalid-pattern")
 				return nil
+			}
+			if len(c.Hide) > 0 {
+				hide := map[string]bool{}
+				for _, p := range c.Hide {
+					hide[p] = true
+				}
+				fv, err = fsutil.NewFilterFS(fv, &fsutil.FilterOpt{Map: func(p string, st *types.Stat) fsutil.MapResult {
+					if hide[p] {
+						return fsutil.MapResultExclude
+					}
+					return fsutil.MapResultKeep
+				}})
+				if err != nil {
+					return h.Infra(err)
+				}
 			}
 			// the form Send uses: a filtered view is only self-contained with the hard-link reset
 			view = fsutil.WithHardlinkReset(fv)
